@@ -551,7 +551,7 @@ impl Check for C03 {
     fn meta(&self) -> Meta {
         Meta {
             level: "exploration",
-            rule: "frame sequences (valid sequence + at most one inserted/replaced/removed token, over HEADERS, DATA(0), DATA(n), unknown(0/n), CANCEL_PUSH, SETTINGS, GOAWAY, MAX_PUSH_ID, PUSH_PROMISE (server), HTTP/2 types) x ending {FIN, RESET(code) at a drawn byte offset, open} x role {server, client} x (one run in five) an endpoint limit of 300 bytes with trailers above it x the stream read whole or split() after 1-3 recv_data calls x drawn chunking, FIN timing, task order and spurious polls; non-trivial = the request stream carried at least one complete frame and at least 2 chunk deliveries or a RESET happened; distinct = distinct schedule signatures",
+            rule: "frame sequences (valid sequence + at most one inserted/replaced/removed token, over HEADERS, DATA(0), DATA(n), unknown(0/n), CANCEL_PUSH, SETTINGS, GOAWAY, MAX_PUSH_ID, PUSH_PROMISE (server), HTTP/2 types) x ending {FIN, RESET(code) at a drawn byte offset, open - also pausing in the middle of the last DATA payload} x role {server, client} x (one run in five) an endpoint limit of 300 bytes with trailers above it x the stream read whole or split() after 1-3 recv_data calls x drawn chunking, FIN timing, task order and spurious polls; non-trivial = the request stream carried at least one complete frame and at least 2 chunk deliveries or a RESET happened; distinct = distinct schedule signatures",
             real: &["h3::server::Connection/RequestResolver/RequestStream", "h3::client::Connection/SendRequest/RequestStream", "h3::connection::RequestStream", "h3::frame::FrameStream", "h3::qpack stateless codec", "h3 shared state / error propagation"],
             stub: &["QUIC transport (SimQuic)", "executor (simexec)", "peer (script of raw stream actions built with the reference codecs)", "application (follows the documented call pattern)"],
             assumptions: &["frame payloads in the sequences are well-formed, so exactly one RFC rule applies", "client receiving FIN or PUSH_PROMISE before/in a response is left unconstrained (the property speaks of servers)", "under RESET only prefix-consistency is demanded"],
@@ -575,11 +575,22 @@ impl Check for C03 {
             2 => Ending::Open,
             _ => Ending::Reset(*pick(&[0x10c, 0x0, 0x100, 0x33]), draw_usize(all.len() + 1)),
         };
-        let sent_len = match &ending {
+        let mut sent_len = match &ending {
             Ending::Reset(_, off) => *off,
             _ => all.len(),
         };
-        let w = walk(&seq, ending == Ending::Fin);
+        let mut w = walk(&seq, ending == Ending::Fin);
+        // a stream left open may pause in the middle of a DATA payload: one time in two, when the (valid) sequence
+        // ends with a DATA frame of two or more bytes, the last 1..n-1 payload bytes are withheld - every payload
+        // byte that did arrive must still reach the application while the stream stays open and quiet
+        if let (Ending::Open, Verdict::Open(Stage::Body), Some(Tok::Data(n))) = (&ending, &w.verdict, seq.last()) {
+            if *n >= 2 && draw(2) == 1 {
+                let cut = 1 + draw_usize(*n - 1);
+                sent_len -= cut;
+                w.body.truncate(w.body.len() - cut);
+                obs::count("probe.open_stream_pauses_inside_a_data_payload");
+            }
+        }
         let mut cfg = NetCfg::drawn();
         cfg.drop_send = 0; // what a dropped handle does to the stream is not this check's subject
         cfg.drop_recv_stops = false;
